@@ -234,6 +234,12 @@ class GridInterp:
             if isinstance(st, ast.AugAssign):
                 v = self.ev(st.value)
                 op = {ast.Add: "add", ast.Sub: "sub"}.get(type(st.op))
+                if op is None and isinstance(st.op, (ast.Mult, ast.Div)) and isinstance(st.target, ast.Name) \
+                        and isinstance(v, A) and v.lead == () and st.target.id in self.env and isinstance(self.env[st.target.id], A):
+                    # scaling a local / argument by a scalar (whether the caller's array may be modified is C10.g's question)
+                    old = self.env[st.target.id]
+                    self.env[st.target.id] = ptw.mul(old, v) if isinstance(st.op, ast.Mult) else ptw.div(old, v)
+                    return
                 if op is None:
                     self.err(st, "augmented operator")
                 self.store(st.target, v, op, st)
